@@ -345,6 +345,51 @@ impl Check for C03 {
                 cx.violation("confirmed-payment-not-counted", "a fully valid, confirmed payment did not increase the payment-received counter".to_string(), w);
             }
         }
+        // ---- a held record of another kind under the same key (a scratchpad and the transactions of one owner share
+        //      their record key): an upload with an invalid payment must not replace it
+        if cx.rng.gen_bool(0.4) {
+            let owner = gen::bls_sk(&mut cx.rng);
+            let pad = gen::pad(&owner, cx.rng.gen_range(1..100), &gen::bytes_r(&mut cx.rng, 1, 60), 0);
+            let tx = gen::transaction(&mut cx.rng, &owner);
+            let (pk, tk) = (gen::pad_key(&pad), gen::tx_key(&owner.public_key()));
+            if pk != tk {
+                cx.count("cross-kind:keys-differ");
+            } else {
+                let pad_first = cx.rng.gen_bool(0.5);
+                let prior = if pad_first { gen::pad_record(&pad) } else { gen::txs_record(tk.clone(), &vec![tx.clone()]) };
+                let n2 = node.clone();
+                let pr = prior.clone();
+                let seeded = sim.run_op(async move { n2.store_replicated_in_record(pr).await });
+                let mut b: u8 = 63;
+                for _ in 0..cx.rng.gen_range(0..3) {
+                    b &= !(1 << cx.rng.gen_range(0..6));
+                }
+                let conds = Conds::from_bits(b);
+                let content = if pad_first { *tx.address().xorname() } else { pad.address().xorname() };
+                let proof = build_proof(&mut cx.rng, &env, content, 3, conds, sim.stub.as_ref().expect("stub"));
+                let upload = if pad_first {
+                    gen::record(tk.clone(), try_serialize_record(&(proof, tx.clone()), RecordKind::TransactionWithPayment).expect("ser").to_vec())
+                } else {
+                    gen::record(pk.clone(), try_serialize_record(&(proof, pad.clone()), RecordKind::ScratchpadWithPayment).expect("ser").to_vec())
+                };
+                let before = sim.get_local(0, &pk);
+                let n2 = node.clone();
+                let res = sim.run_op(async move { n2.validate_and_store_record(upload).await });
+                cx.eval();
+                cx.count("cross-kind-uploads");
+                if let (Some(Ok(())), Some(before), Some(res)) = (seeded, before, res) {
+                    let after = sim.get_local(0, &pk);
+                    if after.as_ref().map(|r| &r.value) != Some(&before.value) && !conds.holds() {
+                        cx.count("cross-kind-uploads:invalid-payment");
+                        cx.violation(
+                            format!("stored-without-valid-payment:over-held-record-of-another-kind:{}", conds.label()),
+                            format!("a {} upload whose payment fails ({}) replaced the {} the node held under the same key (result {res:?})", if pad_first { "transaction" } else { "scratchpad" }, conds.label(), if pad_first { "scratchpad" } else { "transaction set" }),
+                            json!({"held": if pad_first { "scratchpad" } else { "transactions" }, "conditions": format!("{conds:?}")}),
+                        );
+                    }
+                }
+            }
+        }
         // ---- unpaid uploads never create a record
         for kind in KINDS {
             let item = make_item(&mut cx.rng, kind);
